@@ -25,21 +25,54 @@ def r_C03a(root):
                     out.append(Finding("C03", "C03.a", rel, qualname(n), ast.unparse(n), "operand %r is not of kind %s" % (ast.unparse(o), want[0])))
     return inst, out
 def r_C33a(root):
+    """C33.a by evaluation (sa/pyeval.py): the exception handler of TextXMetaModel.process is run on a sample TextXError for
+    every subset of location fields already set by the processor: afterwards each field of get_location() holds the
+    processor's value if it gave one, else the location of the object, and the error is re-raised; another exception is
+    re-raised untouched."""
+    from sa import pyeval
+    import itertools
     fn = find_i(root, "textx/metamodel.py", "TextXMetaModel.process")
     gl = find(load(root, "textx/model.py"), "get_location")
     ret = [s for s in gl.body if isinstance(s, ast.Return)][0].value
     keys = [k.value for k in ret.keys]
-    out = []; filled = set(); guarded = set()
-    for n in own_nodes(fn):
-        if isinstance(n, ast.Assign) and isinstance(n.targets[0], ast.Attribute) and isinstance(n.targets[0].value, ast.Name) and n.targets[0].value.id == "e":
-            f = n.targets[0].attr
-            if isinstance(n.value, ast.Name) and n.value.id == f:
-                filled.add(f)
-                if any(ast.unparse(g) == "e.%s is None" % f and pol for g, pol in guards(n)): guarded.add(f)
-    for k in keys:
-        if k not in filled: out.append(Finding("C33", "C33.a", "textx/metamodel.py", "TextXMetaModel.process", "e.%s" % k, "location field %r of get_location() is never filled into the error" % k))
-        elif k not in guarded: out.append(Finding("C33", "C33.a", "textx/metamodel.py", "TextXMetaModel.process", "e.%s = %s" % (k, k), "fill of %r not guarded by 'is None' (supplied location lost)" % k))
-    return len(keys), out
+    out = []; inst = 0
+    tr = next((n for n in fn.body if isinstance(n, ast.Try)), None)
+    if tr is None or not tr.handlers: raise AnalysisError("TextXMetaModel.process: try/except around the processor call not found")
+    h = tr.handlers[0]; en = h.name
+    if en is None: raise AnalysisError("TextXMetaModel.process: the handler does not bind the exception")
+    params = [a.arg for a in fn.args.args]
+    given = {"filename": "obj.file", "line": 11, "col": 22, "nchar": 33}
+    if not set(keys) <= set(given) or not set(keys) <= set(params): raise AnalysisError("process(): location parameters %s do not cover get_location() keys %s" % (params, keys))
+    bad = None
+    for r in range(len(keys) + 1):
+        for preset in itertools.combinations(keys, r):
+            err = {".__textx__": True}
+            for k in keys: err["." + k] = ("proc-" + k) if k in preset else None
+            env = {en: err, "__classes__": {"TextXError": lambda v: isinstance(v, dict) and bool(v.get(".__textx__")), "Exception": lambda v: True, "BaseException": lambda v: True}}
+            env.update(given)
+            raised = None
+            try: pyeval.run_block(h.body, env)
+            except pyeval.Raised as e_: raised = e_.cls
+            except pyeval.Unsupported as e_: raise AnalysisError("TextXMetaModel.process: handler outside the evaluated subset: %s" % e_)
+            inst += 1
+            want = {k: (("proc-" + k) if k in preset else given[k]) for k in keys}
+            got = {k: err.get("." + k) for k in keys}
+            if (got != want or raised is None) and bad is None: bad = (preset, got, want, raised)
+    ob("C33", "C33.a", "textx/metamodel.py", "TextXMetaModel.process", "handler evaluated for every subset of fields supplied by the processor (%d cases)" % inst, bad is None)
+    if bad:
+        preset, got, want, raised = bad
+        wrong = [k for k in keys if got[k] != want[k]]
+        out.append(Finding("C33", "C33.a", "textx/metamodel.py", "TextXMetaModel.process", "processor supplied %s" % (list(preset) or "no location"), ("location field(s) %s end up as %s, documented %s" % (wrong, {k: got[k] for k in wrong}, {k: want[k] for k in wrong})) if wrong else "the located error is not re-raised", witness="processor raising TextXError(msg%s)" % "".join(", %s=..." % k for k in preset)))
+    # another exception type passes through untouched
+    err = {".__textx__": False}
+    for k in keys: err["." + k] = None
+    env = {en: err, "__classes__": {"TextXError": lambda v: isinstance(v, dict) and bool(v.get(".__textx__")), "Exception": lambda v: True, "BaseException": lambda v: True}}; env.update(given)
+    try: pyeval.run_block(h.body, env); raised = None
+    except pyeval.Raised as e_: raised = e_.cls
+    except pyeval.Unsupported as e_: raise AnalysisError("TextXMetaModel.process: handler outside the evaluated subset: %s" % e_)
+    inst += 1
+    if raised is None: out.append(Finding("C33", "C33.a", "textx/metamodel.py", "TextXMetaModel.process", "non-TextX exception", "an exception of another type raised by a processor is swallowed"))
+    return inst, out
 def _has_dash_norm(e):
     for c in calls(e):
         if callee_name(c) == "replace" and len(c.args) == 2 and all(isinstance(a, ast.Constant) for a in c.args) and c.args[0].value == "-" and c.args[1].value == "_": return True
